@@ -12,6 +12,9 @@ from . import ops
 from .state import arr, ExcV
 
 
+EXTRA = []      # install hooks registered by spec modules (models of eval etc.)
+
+
 def lazy(f):
     f.lazy = True
     return f
@@ -104,6 +107,9 @@ def install(E):
         if x.ty.kind in ('int', 'float', 'bool'):
             return k(st, ops.to_float(x))
         if x.ty.kind == 'str':
+            sx = z3.simplify(x.t)
+            if z3.is_string_value(sx) and sx.as_string().strip().lower() in ('inf', '+inf', '-inf', 'infinity', '-infinity', 'nan'):
+                return k(st, mk_float(float(sx.as_string())))      # the special literals
             return e.call_extern('float_of_str', n, pos, kws, st, k)
         if x.ty.kind == 'any':
             return e.call_extern('float_of_any', n, pos, kws, st, k)
@@ -123,6 +129,18 @@ def install(E):
             k(s, v)
         e.branch(st, okc, good, lambda s: e.raise_(s, 'ValueError', 'float()'), note='float@%s' % getattr(n, 'lineno', '?'))
     X['float_of_str'] = float_of_str
+
+    def float_of_any(e, n, pos, kws, st, k):
+        """float(x) for a dynamically typed x (str / float / int): a function of x, or ValueError / TypeError"""
+        x = pos[0]
+        okf = z3.Function('py_float_any_ok', ANYV, z3.BoolSort())
+        valf = z3.Function('py_float_any_val_' + sortkey(FLOAT), ANYV, sort_of(FLOAT))
+        def good(s):
+            v = SV(FLOAT, valf(x.t))
+            s.assume_wf(v)
+            k(s, v)
+        e.branch(st, okf(x.t), good, lambda s: e.raise_(s, 'ValueError', 'float()'), note='floatany@%s' % getattr(n, 'lineno', '?'))
+    X['float_of_any'] = float_of_any
 
     ParseIntOk = z3.Function('py_int_ok', z3.StringSort(), z3.BoolSort())
     ParseIntVal = z3.Function('py_int_val', z3.StringSort(), z3.IntSort())
